@@ -69,10 +69,11 @@ Record seg := mkSeg { g_sar : sar; g_len : Z; g_data : list Z }.
 Record pdu := mkPdu { p_seg : seg; p_tx : Z }.
 
 (* what travels on the channel.  IFrame's sdulen is the SDU-length field, present on
-   the wire only for START (0 otherwise); I-frames always carry final = 1
-   (InformationEnhancedControlField's default, never overridden). *)
+   the wire only for START (0 otherwise).  The I-frames bumble sends always carry F=1
+   (InformationEnhancedControlField's default, never overridden); a foreign peer's need
+   not. *)
 Inductive frame :=
-| IFrame (tx req : Z) (s : sar) (sdulen : Z) (data : list Z)
+| IFrame (tx req : Z) (s : sar) (sdulen : Z) (data : list Z) (final : bool)
 | SFrame (func : Z) (poll final : bool) (req : Z).
 
 (* _monitor_handle: None / armed / fired for the last time (still truthy) *)
@@ -143,7 +144,7 @@ Fixpoint assign (next : Z) (segs : list seg) : list pdu * Z :=
 Definition iframe_of (req : Z) (p : pdu) : frame :=
   let s := p_seg p in
   IFrame (p_tx p) req (g_sar s)
-         (match g_sar s with START => g_len s | _ => 0 end) (g_data s).
+         (match g_sar s with START => g_len s | _ => 0 end) (g_data s) true.
 
 Definition process_output (e : ep) : ep * list frame :=
   if e_busy e || mon_set (e_mon e) then (e, [])
@@ -188,9 +189,8 @@ Definition send_rr (e : ep) (final : bool) : ep * list frame :=
 (* on_pdu: new state, frames sent (in order), SDUs handed to the sink *)
 Definition on_frame (e : ep) (f : frame) : ep * list frame * list (list Z) :=
   match f with
-  | IFrame tx req s _ data =>
-      (* an I-frame always carries final = 1 *)
-      let '(e1, out1) := update_ack e req true in
+  | IFrame tx req s _ data final =>
+      let '(e1, out1) := update_ack e req final in
       if negb (tx =? e_req e1) then (e1, out1, [])
       else
         let acc := e_insdu e1 ++ data in
@@ -350,8 +350,8 @@ Definition b2z (b : bool) : Z := if b then 1 else 0.
    reads it (bit 4); every S-frame the processor builds has poll = 0. *)
 Definition enc_frame (f : frame) : list Z :=
   match f with
-  | IFrame tx req s sdulen data =>
-      [2 * tx + 128; req + 64 * sar_code s]
+  | IFrame tx req s sdulen data final =>
+      [2 * tx + 128 * b2z final; req + 64 * sar_code s]
         ++ (match s with START => le16 sdulen | _ => [] end) ++ data
   | SFrame func poll final req =>
       [1 + 4 * func + 16 * b2z poll + 128 * b2z final; req]
@@ -385,13 +385,14 @@ Definition dec_frame (payload : list Z) : option frame :=
         let s := sar_of_code ((b1 / 64) mod 4) in
         let tx := (b0 / 2) mod 64 in
         let req := b1 mod 64 in
+        let fin := Z.odd (b0 / 128) in
         match s with
         | START =>
             match rest with
-            | x0 :: x1 :: data => Some (IFrame tx req s (x0 + 256 * x1) data)
-            | _ => Some (IFrame tx req s 0 [])   (* pdu[4:] of a short pdu is empty *)
+            | x0 :: x1 :: data => Some (IFrame tx req s (x0 + 256 * x1) data fin)
+            | _ => Some (IFrame tx req s 0 [] fin)   (* pdu[4:] of a short pdu is empty *)
             end
-        | _ => Some (IFrame tx req s 0 rest)
+        | _ => Some (IFrame tx req s 0 rest fin)
         end
       else
         Some (SFrame ((b0 / 4) mod 4) (Z.odd (b0 / 16)) (Z.odd (b0 / 128)) (b1 mod 128))
